@@ -320,6 +320,7 @@ type guardSpec struct {
 	callerHolds map[string]string // fn name -> mode "W"|"R": functions documented to require the lock on entry
 	exempt     map[string]string // fn name -> reason (constructors, …)
 	altLock    map[string]string // field -> alternative lock accepted (documented exceptions)
+	exemptAccess map[string]string // "fn:T.f" -> reason: single documented lock-free access
 }
 
 // ruleGuarded checks every load/store of the guarded fields in pkgs.
@@ -380,6 +381,10 @@ func (c *Ctx) ruleGuarded(rule string, pkgs []string, g guardSpec) {
 					// report one obligation per (function, field, mode); keep the worst
 				}
 				perField[construct] = true
+				if reason, ok := g.exemptAccess[name+":"+f]; ok && !write {
+					c.okTrivial(rule, construct, c.pos(in.Pos()), "documented lock-free read: "+reason)
+					continue
+				}
 				okHeld := st.holds(g.lock, write)
 				if !okHeld {
 					if alt, ok := g.altLock[f]; ok && st.holds(alt, write) {
